@@ -4,6 +4,7 @@ C15, round 2 - further statements about `merge_parts` / `load_score_as_part`
 
   * the class tuples, guards and constants of the source are those the model and the property text assume
   * dispatch: a Score, a PartGroup (nested to any depth), a list of parts and groups, a single part
+  * the order in which the merged part yields its elements
   * references between elements (ties, slurs, tuplets, beams, grace chains) after merging
   * objects that are on a timeline by their end only
   * parts with several divisions values are rejected, a part that starts after 0 stays where it is
@@ -11,7 +12,7 @@ Definitions used in the statements (Proofs/C15Refs.lean): `Describes names pred`
 exactly the classes `pred`, over the whole class table), `RefsClosed` (references stay within a part), `Kept`
 (an object is transferred from some input), the concrete part `exE`.
 -/
-import PartituraModel.Proofs.C15Refs
+import PartituraModel.Proofs.C15Order
 
 namespace C15
 open Model.Merge
@@ -80,6 +81,34 @@ theorem load_as_part (s : Shape) :
 
 example : iterParts (.many [.group [.part exA, .group [.part exB]], .part exC]) = [exA, exB, exC] := by decide
 example : iterParts (.many [.group [], .group [.group []]]) = ([] : List APart) := by decide
+
+-- ================================================================ order of iteration
+
+/-- The order in which the merged part yields its elements (`iter_all()`): by time point, then by the position of
+the element's class in the class walk, and - for elements of one class at one time point - in order of insertion,
+i.e. by input part and, within a part, in the order that part yielded them. -/
+theorem merged_order (m : Mode) (ps : List APart) (L : Nat) (es : List Elem)
+    (h : mergeParts m ps = some (.merged L es)) :
+    es.Pairwise (fun a b => a.start < b.start ∨ (a.start = b.start ∧ classRank a.cls ≤ classRank b.cls))
+      ∧ ∀ (t c : Nat), es.filter (fun e => e.start == t && classRank e.cls == c)
+                        = (mergeFrom m L true 0 0 0 ps).filter (fun e => e.start == t && classRank e.cls == c) := by
+  obtain ⟨_, _, _, _, rfl⟩ := mergeParts_merged_iff.mp h
+  constructor
+  · refine (isort_pairwise iterLe_total iterLe_trans _).imp ?_
+    intro a b hab
+    simpa only [iterLe, Bool.or_eq_true, Bool.and_eq_true, decide_eq_true_eq, beq_iff_eq] using hab
+  · intro t c
+    apply isort_filter
+    intro a b ha hb
+    simp only [Bool.and_eq_true, beq_iff_eq] at ha hb
+    simp only [iterLe, Bool.or_eq_true, Bool.and_eq_true, decide_eq_true_eq, beq_iff_eq]
+    omega
+
+/-- both clauses are exercised by [exA, exB]: seven elements at time 0 of six classes; the two of class Note come in
+order of insertion, A's note (oid 0) before B's (oid 10) -/
+example : (match mergeParts .voice [exA, exB] with
+    | some (.merged _ es) => (es.filter fun e => e.start == 0 && classRank e.cls == classRank (classId "Note")).map (·.oid)
+    | _ => []) = [0, 10] := by decide
 
 -- ================================================================ divisions and offsets
 
